@@ -11,3 +11,5 @@ pub mod txm;
 mod c03;
 #[cfg(kani)]
 mod c04;
+#[cfg(kani)]
+mod sess;
